@@ -1031,8 +1031,10 @@ fn fails_same(sc: &C13Scenario, class: &str, scratch: &str) -> bool {
 
 pub fn minimise(sc: &C13Scenario, class: &str, scratch: &str, budget: &mut usize) -> C13Scenario {
     let mut best = sc.clone();
+    let t0 = std::time::Instant::now();
+    let allowance = std::time::Duration::from_secs(std::env::var("VERIF_MINIMISE_S").ok().and_then(|v| v.parse().ok()).unwrap_or(240));
     let mut attempt = |cand: C13Scenario, best: &mut C13Scenario, budget: &mut usize| -> bool {
-        if *budget == 0 || cand == *best {
+        if *budget == 0 || cand == *best || t0.elapsed() > allowance {
             return false;
         }
         *budget -= 1;
